@@ -59,7 +59,7 @@ class Ctx:
         self.replayed = 0
         self.notes = {}
         self.assumptions = []
-        self.budget = int(os.environ.get("VERIF_BUDGET_S", "300" if tier == "quick" else "1500"))
+        self.budget = int(os.environ.get("VERIF_BUDGET_S", "300" if tier == "quick" else "3600"))
         self._harness_dir = None
         self.cores = os.cpu_count() or 4
         self._n = 0
